@@ -47,6 +47,9 @@ def check(run):
     yields(R)
     selector(R)
     selector_owned(R)
+    from . import C17 as _C17
+    with R.as_rule('C13.owned'):
+        _C17.session(R)          # one session (one _sock slot) per connect(): an older iterator cannot close / hide a newer socket
     exit_(R)
     closes(R)
 
